@@ -6,6 +6,7 @@ import (
 	"encoding/hex"
 	"math"
 	"reflect"
+	"strconv"
 	"strings"
 	"time"
 
@@ -56,7 +57,17 @@ type G struct {
 	E Entry
 	// Valid is cleared when the generator deliberately leaves the protocol's value domain (over-long string …).
 	Valid bool
+	// Big > 0: give the packet's count-prefixed collection exactly Big (small) elements — collections around the
+	// readers' pre-allocation cap (MaxPreAllocSize = 32768).
+	Big int
 }
+
+// BigArrayTypes are the packet types for which Big is honoured.
+var BigArrayTypes = []string{"packet.PlayerChatCompletion", "config.ActiveFeatures", "config.TagsUpdate", "packet.JoinGame",
+	"config.KnownPacks", "playerinfo.Remove", "packet.CustomReportDetails", "packet.TabCompleteResponse",
+	"packet.ServerLoginSuccess", "packet.AvailableCommands"}
+
+func itoa36(i int) string { return strconv.FormatInt(int64(i), 36) }
 
 func (g *G) ge(v *proto.Version) bool { return g.E.Proto >= v.Protocol }
 func (g *G) lt(v *proto.Version) bool { return g.E.Proto < v.Protocol }
@@ -567,8 +578,72 @@ func (g *G) props() []profile.Property {
 	return ps
 }
 
+// big fills the packet's collection with exactly g.Big small elements.
+func (g *G) big(p proto.Packet) {
+	n := g.Big
+	switch p := p.(type) {
+	case *packet.PlayerChatCompletion:
+		p.Completions = make([]string, n)
+		for i := range p.Completions {
+			p.Completions[i] = string(rune('a' + i%26))
+		}
+	case *config.ActiveFeatures:
+		p.ActiveFeatures = make([]key.Key, n)
+		for i := range p.ActiveFeatures {
+			p.ActiveFeatures[i] = key.New("minecraft", itoa36(i))
+		}
+	case *config.TagsUpdate:
+		ids := make([]int, n)
+		for i := range ids {
+			ids[i] = i % 300
+		}
+		p.Tags = map[string]map[string][]int{"minecraft:block": {"minecraft:big": ids, "minecraft:small": {1, 2}}}
+	case *packet.JoinGame:
+		p.LevelNames = make([]string, n)
+		for i := range p.LevelNames {
+			p.LevelNames[i] = itoa36(i)
+		}
+	case *config.KnownPacks:
+		if g.E.Dir == proto.ClientBound {
+			p.Packs = make([]config.KnownPack, n)
+			for i := range p.Packs {
+				p.Packs[i] = config.KnownPack{Namespace: "m", Id: itoa36(i), Version: "1"}
+			}
+		}
+	case *playerinfo.Remove:
+		p.PlayersToRemove = make([]uuid.UUID, n)
+		for i := range p.PlayersToRemove {
+			p.PlayersToRemove[i][15], p.PlayersToRemove[i][14], p.PlayersToRemove[i][0] = byte(i), byte(i>>8), 7
+		}
+	case *packet.CustomReportDetails:
+		p.Details = make(map[string]string, n)
+		for i := 0; i < n; i++ {
+			p.Details[itoa36(i)] = "v"
+		}
+	case *packet.TabCompleteResponse:
+		p.Offers = make([]packet.TabCompleteOffer, n)
+		for i := range p.Offers {
+			p.Offers[i] = packet.TabCompleteOffer{Text: itoa36(i)}
+		}
+	case *packet.ServerLoginSuccess:
+		p.Properties = make([]profile.Property, n)
+		for i := range p.Properties {
+			p.Properties[i] = profile.Property{Name: "n", Value: itoa36(i)}
+		}
+	case *packet.AvailableCommands:
+		root := &brigodier.RootCommandNode{}
+		for i := 0; i < n; i++ {
+			root.AddChild(brigodier.Literal("l" + itoa36(i)).Build())
+		}
+		p.RootNode = root
+	}
+}
+
 // fix adjusts the generically filled packet to the value domain the protocol permits for this type/context.
 func (g *G) fix(p proto.Packet) {
+	if g.Big > 0 {
+		defer g.big(p)
+	}
 	switch p := p.(type) {
 	case *packet.Handshake:
 		p.Port = g.fitInt(16)
